@@ -5,9 +5,13 @@ import (
 	rt "github.com/ozontech/seq-db/verifrt"
 )
 
-const vEpoch = 1_700_000_000_000 // ms; all instants lie within 2^32 ms (~49 days) after it
+const vEpoch = 1_700_000_000_000 // ms; all instants lie within 2^WBITS ms after it
 
-func vInstant() uint64 { return vEpoch + uint64(rt.NondetU32()) }
+func vInstant() uint64 {
+	x := rt.NondetU32()
+	rt.Assume(x < uint32(1)<<uint(rt.Param("WBITS")))
+	return vEpoch + uint64(x)
+}
 
 // VerifDistribution: the minute-level occupancy map never hides a document: if a document of
 // the fraction lies inside the requested range, the fraction is reported as intersecting - for
